@@ -624,6 +624,10 @@ func bFor(intp *Interpreter) error {
 		} else if err != nil {
 			return err
 		}
+		if increment > 0 && val > math.MaxInt64-increment || increment < 0 && val < math.MinInt64-increment {
+			// the next value would pass the limit (and overflow)
+			break
+		}
 		val += increment
 	}
 	return nil
